@@ -256,3 +256,85 @@ Section RawExport.
       apply H, incl_refl.
   Qed.
 End RawExport.
+
+(* ------------------------------------------------------------------ undirected inputs at the attribute level *)
+Section Undirected.
+  Variables (ids idr : str -> N) (strs : N -> str) (net : list rxn) (iso : list str).
+  Hypothesis disjoint : forall s e, In s (species_set net iso) -> In e net -> ids s <> idr (rid e).
+
+  Let G := raw_export ids idr strs net iso.
+
+  Lemma orient_redge_nodes G1 G2 e : rg_nodes G1 = rg_nodes G2 -> orient_redge G1 e = orient_redge G2 e.
+  Proof. intros H. unfold orient_redge, find_node. now rewrite H. Qed.
+
+  Lemma u_is_rxn_species n0 : species_like n0 = true -> rn_kind n0 = Some true -> u_is_rxn n0 = false.
+  Proof. intros _ Hk. unfold u_is_rxn. now rewrite Hk. Qed.
+
+  (** the species end of an arc of the export is found as a species node, the reaction end as a reaction node *)
+  Lemma und_find_species s : In s (species_set net iso) ->
+    exists nd, find_node G (ids s) = Some nd /\ u_is_rxn nd = false.
+  Proof.
+    intros Hs. unfold find_node, G, raw_export. simpl rg_nodes.
+    set (p := fun nd : rnode => N.eqb (rn_id nd) (ids s)).
+    assert (Hin : In (raw_species ids strs s) (map (raw_species ids strs) (species_set net iso))) by now apply in_map.
+    assert (Hp : p (raw_species ids strs s) = true) by apply N.eqb_refl.
+    rewrite (find_app_l p _ _ _ Hin Hp).
+    destruct (find_exists p _ _ Hin Hp) as [y (H1 & H2 & H3)]. exists y. split; [exact H1|].
+    apply in_map_iff in H2 as [s' [<- _]]. reflexivity.
+  Qed.
+
+  Lemma und_find_rxn e : In e (edges_sorted net) ->
+    exists nd, find_node G (idr (rid e)) = Some nd /\ u_is_rxn nd = true.
+  Proof.
+    intros He. assert (Hen : In e net) by (eapply Permutation_in; [apply edges_sorted_perm|exact He]).
+    unfold find_node, G, raw_export. simpl rg_nodes.
+    set (p := fun nd : rnode => N.eqb (rn_id nd) (idr (rid e))).
+    rewrite (find_app_r p).
+    - assert (Hin : In (raw_rxn idr strs e) (map (raw_rxn idr strs) (edges_sorted net))) by now apply in_map.
+      assert (Hp : p (raw_rxn idr strs e) = true) by apply N.eqb_refl.
+      destruct (find_exists p _ _ Hin Hp) as [y (H1 & H2 & H3)]. exists y. split; [exact H1|].
+      apply in_map_iff in H2 as [e' [<- _]]. reflexivity.
+    - intros x Hx. apply in_map_iff in Hx as [s [<- Hs]]. unfold p. simpl. apply N.eqb_neq. now apply disjoint.
+  Qed.
+
+  Lemma orient_flip b a : In a (bip_arcs net) -> orient_redge G (flip_redge b (raw_arc ids idr a)) = raw_arc ids idr a.
+  Proof.
+    intros Ha. unfold bip_arcs in Ha. apply in_flat_map in Ha as (e & Ie & Ia).
+    assert (Ien : In e net) by (eapply Permutation_in; [apply edges_sorted_perm|exact Ie]).
+    assert (Hs : In (a_species a) (rxn_species e) /\ a_rxn a = rid e).
+    { unfold arcs_of in Ia. unfold rxn_species. rewrite in_app_iff. apply in_app_iff in Ia.
+      destruct Ia as [Ia|Ia]; apply in_map_iff in Ia; destruct Ia as (p & <- & Ip); simpl; split; auto;
+        [left|right]; apply in_map; exact Ip. }
+    destruct Hs as [Hsp Hr].
+    assert (Hss : In (a_species a) (species_set net iso)) by (apply species_set_in; left; exists e; auto).
+    destruct (und_find_species _ Hss) as [u (Fu & Uu)].
+    destruct (und_find_rxn e Ie) as [v (Fv & Uv)]. rewrite <- Hr in Fv.
+    unfold raw_arc. destruct (a_role a); destruct b; unfold flip_redge, orient_redge; simpl re_u; simpl re_v; simpl re_role.
+    - rewrite Fv, Uv. reflexivity.
+    - rewrite Fu, Uu. reflexivity.
+    - rewrite Fu, Uu. reflexivity.
+    - rewrite Fv, Uv. reflexivity.
+  Qed.
+
+  Lemma stored_orient l : incl l (bip_arcs net) ->
+    forall flips, map (orient_redge G) (stored flips (map (raw_arc ids idr) l)) = map (raw_arc ids idr) l.
+  Proof.
+    induction l as [|a l IH]; intros Hl flips; [destruct flips; reflexivity|].
+    assert (Ha : In a (bip_arcs net)) by (apply Hl; now left).
+    assert (Hl' : incl l (bip_arcs net)) by (intros x Hx; apply Hl; now right).
+    destruct flips as [|b flips]; simpl.
+    - pose proof (orient_flip false a Ha) as E. unfold flip_redge in E. rewrite E. f_equal. apply (IH Hl' []).
+    - rewrite (orient_flip b a Ha). f_equal. apply (IH Hl' flips).
+  Qed.
+
+  (** whichever way the undirected graph stores its edges, orienting them by role gives back the directed raw export — so undirected
+      inputs are covered by [normalise_raw_export] and everything that follows from it *)
+  Theorem orient_undirected_raw flips : orient_raw (undirected_raw flips G) = G.
+  Proof.
+    unfold orient_raw, undirected_raw. cbn [rg_nodes rg_edges].
+    rewrite (map_ext _ (orient_redge G)) by (intros a; apply orient_redge_nodes; reflexivity).
+    assert (E : map (orient_redge G) (stored flips (rg_edges G)) = rg_edges G).
+    { unfold G at 2 3. unfold raw_export. cbn [rg_edges]. apply stored_orient, incl_refl. }
+    rewrite E. unfold G, raw_export. reflexivity.
+  Qed.
+End Undirected.
